@@ -6,11 +6,12 @@
     says which answers an iteration order of the Go maps can produce; every observed answer must be
     among them. [asset_lookup_repaired] / [media_pattern_repaired] say which version of the Go
     code the model stands for: as found (any matching asset path / unanchored unquoted pattern) or
-    with proposed_fixes/C07-findasset-longest.diff / C07-anchor-media-regexp.diff applied. *)
+    repaired. Both are [true] since the fix commits 5fe544f (findAsset: longest matching path) and
+    a92686d (mediaPattern: quoted and anchored) are in the checked tree. *)
 From Verif Require Import GoSem Lookup.
 
-Definition asset_lookup_repaired : bool := false.
-Definition media_pattern_repaired : bool := false.
+Definition asset_lookup_repaired : bool := true.
+Definition media_pattern_repaired : bool := true.
 
 Record c07asset := { ca_path : string; ca_reps : list (string * string * string) }. (* id, pre, suf *)
 
@@ -44,7 +45,7 @@ Definition string_of_str (s : str) : string := string_of_list_ascii s.
 Definition seg_outcomes (a : c07asset) (rest : str) : list outcome :=
   let cands :=
     if media_pattern_repaired
-    then match first_rep media_match_anchored (reps_of a) rest with Some x => [x] | None => [] end
+    then rep_candidates media_match_anchored (reps_of a) rest
     else rep_candidates media_search (reps_of a) rest in
   match cands with
   | [] => [ONotFound]
